@@ -55,3 +55,65 @@ func VerifC06_KeyCursorArray() {
 	}
 	vrt.Reach("end")
 }
+
+// VerifC06_ChainedOverlap: a layout where blocks of one file do not overlap each other but a block of
+// another file spans several of them: older file with three single-point blocks z < a < c, newer file
+// with one block [b0, b1] anywhere; arbitrary seek time and direction. Same oracle as above.
+func VerifC06_ChainedOverlap() {
+	bound := func(x int64) {
+		vrt.Assume(x > -4611686018427387904)
+		vrt.Assume(x < 4611686018427387904)
+	}
+	z, a, c := vrt.Int64("z"), vrt.Int64("a"), vrt.Int64("c")
+	b0, b1 := vrt.Int64("b0"), vrt.Int64("b1")
+	for _, x := range []int64{z, a, c, b0, b1} {
+		bound(x)
+	}
+	vrt.Assume(z < a)
+	vrt.Assume(a < c)
+	vrt.Assume(b0 < b1)
+	older := &verifTSM{name: "000000001-000000001.tsm", blocks: [][2][]int64{{{z}, {1}}, {{a}, {2}}, {{c}, {3}}}}
+	newer := &verifTSM{name: "000000002-000000001.tsm", blocks: [][2][]int64{{{b0, b1}, {10, 11}}}}
+	if vrt.Choose("spanning_block_in_older_file", 0, 1) == 1 {
+		older.name, newer.name = newer.name, older.name
+	}
+	files := []*verifTSM{older, newer}
+	if older.name > newer.name {
+		files = []*verifTSM{newer, older}
+	}
+	fs := &FileStore{}
+	for _, f := range files {
+		fs.files = append(fs.files, f)
+	}
+	t := vrt.Int64("seek")
+	bound(t)
+	asc := vrt.Choose("ascending", 0, 1) == 1
+	cur := newKeyCursor(context.Background(), fs, []byte("k"), t, asc)
+	var ts, vs []int64
+	buf := &tsdb.IntegerArray{}
+	for i := 0; i < 8; i++ {
+		arr, err := cur.ReadIntegerArrayBlock(buf)
+		vrt.Assert(err == nil, "read: no error")
+		if arr.Len() == 0 {
+			break
+		}
+		if asc {
+			ts = append(ts, arr.Timestamps...)
+			vs = append(vs, arr.Values...)
+		} else {
+			for k := arr.Len() - 1; k >= 0; k-- {
+				ts = append(ts, arr.Timestamps[k])
+				vs = append(vs, arr.Values[k])
+			}
+		}
+		cur.Next()
+	}
+	cur.Close()
+	ps := verifAllPoints(files)
+	inRange := func(x int64) bool { return x >= t }
+	if !asc {
+		inRange = func(x int64) bool { return x <= t }
+	}
+	verifCheckOutput(ps, inRange, ts, vs, asc, "keycursor (chained overlap)")
+	vrt.Reach("end")
+}
